@@ -409,6 +409,29 @@ func (r *Run) checkCompensate(P string) {
 	}
 	putT, addT := ff.TB.Of(put), ff.TB.Of(add)
 	okOrder := ff.At(add).Has((&core.Fact{Kind: "ok", A: putT}).Key())
+	if !okOrder {
+		// the store add may be conditional (nothing to store for operation types that are not configured): then what
+		// matters is that the queue add is unreachable from the store add's failure edge
+		failEdges, reaches := 0, false
+		for _, b := range po.Blocks {
+			for _, sx := range b.Succs {
+				isFail := false
+				for _, fc := range ff.EdgeFacts(b, sx) {
+					if fc.Kind == "fail" && fc.A != nil && fc.A.String() == putT.String() {
+						isFail = true
+					}
+				}
+				if !isFail {
+					continue
+				}
+				failEdges++
+				if sx == add.Block() || ff.WalkFeasible([]*ssa.BasicBlock{b, sx}, nil, func(x *ssa.BasicBlock) bool { return x == add.Block() }) {
+					reaches = true
+				}
+			}
+		}
+		okOrder = failEdges > 0 && !reaches && put.Block().Dominates(add.Block()) == false && blockPrecedes(po, put.Block(), add.Block())
+	}
 	// delete is on the failure path of add
 	okOnFail := ff.At(del).Has((&core.Fact{Kind: "fail", A: addT}).Key())
 	// same unpublished operation
@@ -523,4 +546,24 @@ func (r *Run) loopBodyIsolated(f *ssa.Function) (bool, string) {
 		}
 	}
 	return len(leaks) == 0, strings.Join(leaks, "; ")
+}
+
+// blockPrecedes: b is reachable from a (a lies on some way to b).
+func blockPrecedes(f *ssa.Function, a, b *ssa.BasicBlock) bool {
+	seen := map[*ssa.BasicBlock]bool{a: true}
+	work := []*ssa.BasicBlock{a}
+	for len(work) > 0 {
+		x := work[len(work)-1]
+		work = work[:len(work)-1]
+		if x == b {
+			return true
+		}
+		for _, s := range x.Succs {
+			if !seen[s] {
+				seen[s] = true
+				work = append(work, s)
+			}
+		}
+	}
+	return false
 }
